@@ -5,11 +5,35 @@ from pathlib import Path
 
 V = Path(__file__).resolve().parent
 props = [json.loads(l) for l in open(V / "properties.jsonl")]
+def _lv(model, traces):
+    return (f"TLC explores the bounded model {model} exhaustively (code-shaped transcription checked against the property clauses, "
+            f"sanity configurations that must fail) and emits its states as scenarios; these are replayed on the real code and "
+            f"every projected execution is validated by TLC against the clauses: {traces}. Bounded + sampled, not a proof.")
+
+
 LEVEL = {
-    "C10": ("TLC explores every tempo list/query tuple of the bounded model and checks that the code-shaped reverse "
-            "sweep refines piecewise-linear integration; every explored tempo list is replayed on the real TimingMap "
-            "and each call's projected result is validated by TLC against the Ref clauses (integration, index "
-            "alignment, on-grid round trip, 1/192-beat bound, nearest-fraction, beat distance).", "DESIGN.md §5 C10"),
+    "C01": (_lv("OsuMC (token files for 1..18 keys; column<->x lemmas as ASSUME)", "read = denotation of independently lexed tokens, "
+                "written text well-formed and within 1 ms, re-read exact, second write, 3 generations"), "DESIGN.md §5 C01"),
+    "C02": (_lv("SMMC (StepMania token files)", "per-kind bags, head/tail pairing, header fields, tempo positions"), "DESIGN.md §5 C02"),
+    "C03": (_lv("SMMC (+ SMCalc times)", "well-formed tokens, denotation = in-memory set (exact / 1/96 beat), header kept, second generation"), "DESIGN.md §5 C03"),
+    "C04": (_lv("BMSMC (five layouts, lines as a set)", "hits/holds with samples, LN pairing in time order, tempo, header retention"), "DESIGN.md §5 C04"),
+    "C05": (_lv("BMSMC denotations built in memory", "line syntax, one object per hit, head/LNOBJ per hold, tempo timeline reproduced"), "DESIGN.md §5 C05"),
+    "C06": (_lv("QuaMC (documents with omitted keys)", "read = denotation, schema of written documents, within 1 ms, generations"), "DESIGN.md §5 C06"),
+    "C07": (_lv("O2JMC (packages, repaired sweep transcription)", "three difficulties, pairing, times by integration, header fields"), "DESIGN.md §5 C07"),
+    "C08": (_lv("ConvertMC (cast with row labels after every source history)", "bags preserved, no NaN, only target fields, names, source untouched, result stable"), "DESIGN.md §5 C08"),
+    "C09": ("composition of the five format specs (CrossTrace INSTANCEs them): source tokens and written target tokens are both denoted by "
+            "TLC and compared as timelines at the coarser resolution, for all 16 pairs; seeded sources. Sampled, not exhaustive.", "DESIGN.md §5 C09"),
+    "C10": (_lv("TempoMC (reverse sweep + un-permutation)", "integration, alignment, on-grid round trip, 1/192-beat bound, nearest fraction, beat distance"), "DESIGN.md §5 C10"),
+    "C11": (_lv("ReseatMC (loop transcription)", "seven reseating clauses through three entry points"), "DESIGN.md §5 C11"),
+    "C12": (_lv("StackMC (Stacker transcription with StaleStackWrite)", "write-through relation per assignment, shape kept"), "DESIGN.md §5 C12"),
+    "C13": (_lv("RateMC (exact rationals)", "scaled, meta scaled, untouched, identity, composition, write/read"), "DESIGN.md §5 C13"),
+    "C14": (_lv("FrameMC (heap/alias) + ListsMC histories", "full projection of every input equal before/after each of 37 map-level and all list operations; documented copies poked"), "DESIGN.md §5 C14"),
+    "C15": (_lv("PermMC (all permutations, both label forms)", "results on permuted charts equivalent as bags for write x4, converters, rate, full_ln, hitsound_copy, analyses"), "DESIGN.md §5 C15"),
+    "C16": (_lv("ListsMC (history machine + laws)", "plain-sequence semantics of every list operation on all 34 list classes, declared fields"), "DESIGN.md §5 C16"),
+    "C17": (_lv("FullLNMC (sweep transcription)", "notes kept, per-column rule with order search, no overlap, other lists unchanged"), "DESIGN.md §5 C17"),
+    "C18": (_lv("HitsoundMC (slot machine)", "six hitsound clauses + inputs unchanged"), "DESIGN.md §5 C18"),
+    "C19": (_lv("SpeedMC (pandas-shaped step function)", "dominant set, scroll speed at every breakpoint, normalisation"), "DESIGN.md §5 C19"),
+    "C20": (_lv("PatternMC (is_grouped loop)", "grouping clauses, combinations none missing / none extra under set-theoretic filter expansion"), "DESIGN.md §5 C20"),
 }
 TECH = "TLA+ spec checked with TLC + TLC trace validation of real-code executions (spec->code scenarios, code->spec traces)"
 checks, na = [], []
